@@ -33,11 +33,17 @@ func zzSign(x int) int {
 
 // ---- comparers under test ----
 
-// zzRevCmp: reverse bytewise order except that the empty key stays smallest
-// is NOT required by the contract; plain reverse order is a valid total order.
+// zzRevCmp: reverse bytewise order among non-empty keys; the empty key stays
+// the smallest, as the comparer contract demands ("the empty slice must be
+// 'less than' any non-empty slice").
 type zzRevCmp struct{}
 
-func (zzRevCmp) Compare(a, b []byte) int           { return comparer.DefaultComparer.Compare(b, a) }
+func (zzRevCmp) Compare(a, b []byte) int {
+	if len(a) == 0 || len(b) == 0 {
+		return comparer.DefaultComparer.Compare(a, b)
+	}
+	return comparer.DefaultComparer.Compare(b, a)
+}
 func (zzRevCmp) Name() string                      { return "zz.rev" }
 func (zzRevCmp) Separator(dst, a, b []byte) []byte { return nil }
 func (zzRevCmp) Successor(dst, b []byte) []byte    { return nil }
